@@ -209,7 +209,7 @@ def make_recipe(rng: random.Random, pid: str, ep: int) -> dict:
         rng.shuffle(rp)
     else:
         rng.shuffle(cp)
-        for _ in range(rng.choice([0, 0, 1, 3, 40])):
+        for _ in range(rng.choice([0, 0, 1, 3, 9])):
             cp.insert(rng.randint(0, len(cp)), 0)
     oc, dname = rng.choice(OFFS)
     return {"ep": ep, "m": m, "n": n, "S0": S0, "O0": O0, "rp": rp, "cp": cp, "f": rng.choice([0, 1, 2, m // 4, m // 2, m - 3]),
